@@ -161,6 +161,26 @@ theorem iee_keyblobs_unwrap (h : CryptoLaws c) (bs : List IeeBlob) (hne : bs ≠
       ieeUnwrapTable c k1 k2 addr bs.length t = bs.map (fun b => some b.ctx) :=
   FlashEnc.iee_keyblobs_unwrap h bs hne hwf k1 k2 hk1 hk2 hk addr
 
+/-- A data blob made of several segments (S-record / HEX / ELF input, nested image): for EVERY list of segments at 4 KiB
+    aligned addresses, `export_image` succeeds, keeps every address, and the engine reads every segment back at ITS own
+    absolute address ("pieces at their addresses"). -/
+theorem iee_segments_invert (h : CryptoLaws c) (bs : List IeeBlob) (hwf : ∀ b ∈ bs, b.WF ∧ b.claimed) (hd : IeeDisjoint bs) :
+    ∀ (segs : List (Nat × Bytes)), (∀ sg ∈ segs, sg.1 % 4096 = 0) →
+      ∃ out, Iee.exportSegments c bs segs = .ok out ∧ out.map (·.1) = segs.map (·.1) ∧
+        ∀ p ∈ out.zip segs, (ieeHwReadAll c (bs.map IeeBlob.ctx) p.2.1 p.1.2).take p.2.2.length = p.2.2
+  | [], _ => ⟨[], rfl, rfl, by simp⟩
+  | (a, d) :: rest, hal => by
+    obtain ⟨ct, h1, h2, _⟩ := iee_hw_inverts h bs hwf hd a (hal (a, d) List.mem_cons_self) d
+    obtain ⟨out, o1, o2, o3⟩ := iee_segments_invert h bs hwf hd rest (fun sg hs => hal sg (List.mem_cons_of_mem _ hs))
+    refine ⟨(a, ct) :: out, ?_, ?_, ?_⟩
+    · simp only [Iee.exportSegments, h1, o1]
+    · simp [o2]
+    · intro p hp
+      rw [List.zip_cons_cons] at hp
+      rcases List.mem_cons.mp hp with hp | hp
+      · subst hp; exact h2
+      · exact o3 p hp
+
 /-! ## BEE -/
 
 theorem bee_refines_spec (h : CryptoLaws c) (hs : List (Option BeeEngine)) (hwf : ∀ e ∈ beeEngines hs, e.WF)
